@@ -402,3 +402,19 @@ def Machine.leavesOK (M : Machine) (o : SemOpts) : Bool :=
         | .yielded _ _ adv => adv ≤ 1
 
 end Nmfu
+
+namespace Nmfu
+
+/-- Decidable per-machine check for C17: the arm `end()` takes in a normal state lists
+    end-of-input explicitly, or is a fall-through, or is error handling (the consuming else arm of
+    a `wait`, which may carry the actions pending before the wait).  A consuming arm that belongs
+    to a data pattern — a literal, a set, a wildcard or an inverted set, whose else arm is not
+    error handling — is never taken on end-of-input. -/
+def Machine.endArmsOK (M : Machine) : Bool :=
+  M.states.all fun s =>
+    s.kind != .normal ||
+    match s.endArm with
+    | none => true
+    | some a => a.on.contains symEnd || a.fall || a.err
+
+end Nmfu
